@@ -37,6 +37,8 @@ class RunningFailureMonitor(Monitor):
         w.listeners.append(self.on_event)
         self.last_master_change = 0.0
         self.elections = []
+        self.closing_seen = {}
+        self.ends = []
         self.fsm_seen = {}
         self.master_seen = {}
         w.on_hook('send_state_event', self.on_state)
@@ -47,6 +49,8 @@ class RunningFailureMonitor(Monitor):
         if self.master_seen.get(key) != value:
             self.master_seen[key] = value
             self.last_master_change = self.run.world.now
+        if payload['fsm_statename'] in ('RESTARTING', 'SHUTTING_DOWN'):
+            self.closing_seen.setdefault((inst.nick, inst.inc, payload['fsm_statename']), self.run.world.now)
         if payload['fsm_statename'] == 'ELECTION' and self.fsm_seen.get(key) != 'ELECTION':
             self.elections.append((self.run.world.now, inst.nick, inst.inc))
         self.fsm_seen[key] = payload['fsm_statename']
@@ -63,6 +67,8 @@ class RunningFailureMonitor(Monitor):
             handler = inst.supvisors.failure_handler
             for name in ('add_default_job', 'add_job'):
                 self.wrap(inst, handler, name)
+        elif ev['k'] in ('crash', 'exit'):
+            self.ends.append((ev['t'], ev['inst'], ev['inc']))
         elif ev['k'] == 'truth':
             self.truth_log.setdefault(ev['namespec'], []).append((ev['t'], ev['inst'], ev['state']))
             if ev['state'] in (100, 200) and not ev.get('expected', True) or ev['state'] == 200:
@@ -155,7 +161,12 @@ class RunningFailureMonitor(Monitor):
             strategy = prog.get('running_failure_eff', 'CONTINUE')
             if strategy == 'RESTART_PROCESS' and not record['survivors'].get(app) and prog.get('start_sequence', 0) > 0:
                 strategy = 'RESTART_APPLICATION'
+            if strategy in ('RESTART', 'SHUTDOWN'):
+                # whole-Supvisors strategies are only specified for a process crash, not for an instance loss
+                continue
             strategies[namespec] = strategy
+        if not strategies:
+            return None, strategies
         action = min(strategies.values(), key=PRECEDENCE.index)
         return action, strategies
 
@@ -168,16 +179,30 @@ class RunningFailureMonitor(Monitor):
         if not app['managed']:
             return
         strategy = prog.get('running_failure_eff', 'CONTINUE')
-        if strategy not in ('STOP_APPLICATION', 'RESTART_APPLICATION'):
+        if strategy not in ('STOP_APPLICATION', 'RESTART_APPLICATION', 'RESTART', 'SHUTDOWN'):
             return
         history = self.truth_log.get(namespec, [])
         # a crash of a process that was running (not a start failure)
         previous = [s for t, n, s in history[:-1] if n == ev['inst']]
         if not previous or previous[-1] != 20:
             return
-        self.crashes.append({'t': ev['t'], 'namespec': namespec, 'on': ev['inst'], 'strategy': strategy,
-                             'state': ev['state']})
+        record = {'t': ev['t'], 'namespec': namespec, 'on': ev['inst'], 'strategy': strategy, 'state': ev['state']}
+        self.crashes.append(record)
         self.count('running_crashes_with_application_strategy')
+        if strategy in ('RESTART', 'SHUTDOWN'):
+            # who is the Master now, if everybody agrees and it is at work
+            w = self.run.world
+            try:
+                vws = views(w)
+            except Fault:
+                return
+            masters = {v['master'] for v in vws.values()}
+            if len(masters) == 1 and all(v['state'] in ('OPERATION', 'CONCILIATION') for v in vws.values()):
+                mnick = w.by_identifier.get(next(iter(masters)))
+                minst = w.instances.get(mnick)
+                if minst is not None and minst.alive and mnick in vws:
+                    record['master'] = (mnick, minst.inc)
+                    self.count('crashes_with_supvisors_strategy')
 
     # -- end ----------------------------------------------------------------------------------------
     def plans_of(self, nick, inc, kind, name, since, until=None):
@@ -186,6 +211,9 @@ class RunningFailureMonitor(Monitor):
 
     def finish(self, run):
         w = run.world
+        for crash in self.crashes:
+            if crash['strategy'] in ('RESTART', 'SHUTDOWN'):
+                self.evaluate_supvisors_strategy(run, crash)
         if not run.outcome.get('settled'):
             self.count('runs_not_settled')
             return self.violations
@@ -204,6 +232,8 @@ class RunningFailureMonitor(Monitor):
                     self.count('lost_in_application_with_jobs')
                     continue
                 action, strategies = self.expected_action(record, app)
+                if action is None:
+                    continue
                 self.count('applications_evaluated_after_loss')
                 self.count('applications_evaluated_' + action)
                 nick, inc, t = record['master'], record['inc'], record['t']
@@ -287,8 +317,33 @@ class RunningFailureMonitor(Monitor):
                 self.violate('C06/not-restarted-nor-fatal', f"{where}: at the end {namespec} runs nowhere and the "
                              f"Master reports it {info['statename']}", case=run.describe())
 
+    def evaluate_supvisors_strategy(self, run, crash):
+        """ RESTART / SHUTDOWN: the Master, if it lived on, has published RESTARTING / SHUTTING_DOWN shortly after. """
+        w = run.world
+        if 'master' not in crash:
+            return
+        mnick, minc = crash['master']
+        expected = 'RESTARTING' if crash['strategy'] == 'RESTART' else 'SHUTTING_DOWN'
+        lost = [t for t, nick, inc in self.ends if nick == mnick and inc == minc and t < crash['t'] + 3 * TICK
+                and self.closing_seen.get((mnick, minc, expected), 1e18) > t]
+        if lost or any(l['t'] >= crash['t'] - 3 * TICK and l['t'] <= crash['t'] + 3 * TICK for l in self.losses):
+            self.count('crashes_not_evaluated')
+            return
+        if w.now - crash['t'] < 4 * TICK:
+            return
+        self.count('supvisors_strategy_crashes_evaluated')
+        seen = self.closing_seen.get((mnick, minc, expected))
+        other = 'SHUTTING_DOWN' if expected == 'RESTARTING' else 'RESTARTING'
+        if seen is None and self.closing_seen.get((mnick, minc, other)) is None:
+            self.violate(f"C06/crash-not-handled:{crash['strategy']}",
+                         f"{crash['namespec']} (running, strategy {crash['strategy']}) crashed on {crash['on']} at "
+                         f"vt={round(crash['t'] - 1_700_000_000.0, 3)}: the Master {mnick} never published {expected}",
+                         case=run.describe())
+
     def evaluate_crash(self, run, crash, vws):
         w = run.world
+        if crash['strategy'] in ('RESTART', 'SHUTDOWN'):
+            return
         # who was the Master then is who is the Master now, if nothing changed
         masters = {v['master'] for v in vws.values()}
         if len(masters) != 1:
